@@ -59,10 +59,13 @@ def main():
     if os.path.exists(demo):
         shutil.copy(demo, os.path.join(dest, 'demonstration.py'))
     meta = {}
-    try:
-        meta = json.load(open(os.path.join(src, 'meta.json'))).get(letter, {})
-    except Exception:  # noqa: BLE001
-        pass
+    for name in ('meta.json', 'meta2.json'):
+        try:
+            got = json.load(open(os.path.join(src, name))).get(letter, {})
+            if got:
+                meta = got
+        except Exception:  # noqa: BLE001
+            pass
     st = sh('git -C /repo status --short --untracked-files=no').stdout.strip()
     if st:
         raise SystemExit('/repo is not clean: ' + st)
